@@ -20,6 +20,9 @@ from . import REPO, VENV_PY, VERIF
 sys.path.insert(0, VERIF)
 
 
+OUT = os.environ.get("HDCV_OUT", VERIF)     # where evidence/ and replays/ are written (default: /verif)
+
+
 def slug(s):
     return re.sub(r"[^A-Za-z0-9_.-]+", "_", s)[:120]
 
@@ -34,7 +37,8 @@ def load_known():
 
 def run_standin(pid, tier, seed, extra=None):
     """Bounded run-time contract checks on the real (compiled + interpreted) code, under /venv."""
-    out = os.path.join(VERIF, "evidence", f".standin_{pid}.json")
+    os.makedirs(os.path.join(OUT, "evidence"), exist_ok=True)
+    out = os.path.join(OUT, "evidence", f".standin_{pid}.json")
     if os.path.exists(out):
         os.unlink(out)
     cmd = [VENV_PY, os.path.join(VERIF, "standin", "run.py"), pid, "--tier", tier, "--seed", str(seed), "--out", out]
@@ -117,6 +121,8 @@ def check(pid, tier, seed, a):
         if r.ctx is not None:
             for o in r.ctx.obls:
                 o.func = c.short
+                o.contract_obj = c
+                o.param_order = r.fsrc.params if r.fsrc else []
                 if r.error is None:
                     obls.append(o)
     lemma_names = set(P.get("lemmas", []))
@@ -160,6 +166,7 @@ def check(pid, tier, seed, a):
             return k
         return None
 
+    n_cex = [0]
     st_viol = (st_res or {}).get("violations", [])
     # violations found by the stand-in (replayed input on the real code)
     used_inputs = set()
@@ -179,15 +186,46 @@ def check(pid, tier, seed, a):
                 inp = v
                 used_inputs.add(i)
                 break
+        model_input = None
+        cex_note = None
+        cobj = getattr(o, "contract_obj", None)
+        if inp is None and cobj is not None and not cobj.key.startswith("ghost:") and o.kind in ("index", "written", "slice", "shape", "div", "own") \
+                and n_cex[0] < 3:
+            # bounded counterexample search on the same AST (no invariants, small concrete sizes), then replay
+            from . import cex
+            n_cex[0] += 1
+            try:
+                model_input, cex_note = cex.search(o, cobj, budget_s=40)
+            except Exception as exc:
+                model_input, cex_note = None, f"counterexample search failed: {type(exc).__name__}: {exc}"
         rp = {"property": pid, "obligation": o.id, "kind": o.kind, "where": o.where, "function": o.func, "float_model": o.fmodel,
               "verdict": o.verdict, "backend": o.backend, "solver_output": o.detail, "input": inp,
-              "replay": f"python3-vt -m hdcv.check {pid} --replay <this file>",
+              "replay": f"python3-vt -m hdcv.check {pid} --replay <this file>", "counterexample_search": str(cex_note) if cex_note is not None else None,
               "smt2_sha": hashlib.sha256(smt.smt2_text(o).encode()).hexdigest()[:16]}
-        path = os.path.join(VERIF, "replays", f"{pid}-{slug(o.id)}.json")
+        path = os.path.join(OUT, "replays", f"{pid}-{slug(o.id)}.json")
         os.makedirs(os.path.dirname(path), exist_ok=True)
+        replayed = False
+        if model_input is not None:
+            cobj = getattr(o, "contract_obj", None)
+            if cobj is not None and not cobj.key.startswith("ghost:"):
+                rp.update({"model_input": model_input, "function_key": cobj.key, "param_order": list(getattr(o, "param_order", [])), "outputs": list(cobj.modifies)})
+                with open(path, "w") as fh:
+                    json.dump(rp, fh, indent=1, default=str)
+                outp = path + ".out"
+                env = dict(os.environ)
+                env["PYTHONPATH"] = REPO + os.pathsep + VERIF
+                try:
+                    subprocess.run([VENV_PY, os.path.join(VERIF, "standin", "model_replay.py"), path, outp], env=env, capture_output=True, timeout=600)
+                    with open(outp) as fh:
+                        rr = json.load(fh)
+                    os.unlink(outp)
+                except Exception as exc:
+                    rr = {"reproduced": False, "what": f"replay failed: {exc}"}
+                rp["model_replay"] = rr
+                replayed = bool(rr.get("reproduced"))
         with open(path, "w") as fh:
             json.dump(rp, fh, indent=1, default=str)
-        violations.append((o.id, path, inp is not None))
+        violations.append((o.id, path, inp is not None or replayed))
     for i, v in enumerate(st_viol):
         if i in used_inputs:
             continue
@@ -195,7 +233,7 @@ def check(pid, tier, seed, a):
         if k:
             lines.append(f"KNOWN-FINDING: property={pid} {k['what']} [stand-in {v.get('check')}]")
             continue
-        path = os.path.join(VERIF, "replays", f"{pid}-standin-{slug(v.get('check', 'x'))}.json")
+        path = os.path.join(OUT, "replays", f"{pid}-standin-{slug(v.get('check', 'x'))}.json")
         os.makedirs(os.path.dirname(path), exist_ok=True)
         with open(path, "w") as fh:
             json.dump({"property": pid, "obligation": f"bounded:{v.get('check')}", "found_by": "bounded", "input": v,
@@ -259,8 +297,8 @@ def check(pid, tier, seed, a):
         ev["coverage"]["evaluations"] = int(st_res.get("evaluations", 0))
         ev["coverage"]["distinct_nontrivial"] = int(st_res.get("distinct_nontrivial", 0))
         ev["coverage"]["rule"] = st_res.get("rule", "")
-    os.makedirs(os.path.join(VERIF, "evidence"), exist_ok=True)
-    with open(os.path.join(VERIF, "evidence", f"{pid}.json"), "w") as fh:
+    os.makedirs(os.path.join(OUT, "evidence"), exist_ok=True)
+    with open(os.path.join(OUT, "evidence", f"{pid}.json"), "w") as fh:
         json.dump(ev, fh, indent=1, default=str)
     try:
         import jsonschema
